@@ -195,6 +195,12 @@ def domain(tier):
         for (nz, nd, ndkw) in noises:
             for p in rates:
                 opt.append((cname, list(size), nz, nd, ndkw, p, tier))
+    # a rate above 1/2 whose flip marginals are still below 1/2 (the clause is about the
+    # marginals), deformed so that the weights differ inside a sector
+    for cname, size in [('RotatedPlanar2DCode', (3, 4)), ('Toric2DCode', (2, 3)), ('Planar2DCode', (2, 3))] + \
+            ([('RotatedPlanar2DCode', (4, 4)), ('Toric2DCode', (3, 3))] if tier != 'quick' else []):
+        for ax in ('x', 'y'):
+            opt.append((cname, list(size), 'XZmix', 'XZZX', {'deformation_axis': ax}, 0.7, tier))
     # correctable sets (uniform weights)
     L = 5 if tier == 'quick' else 7
     cap = 2500 if tier == 'quick' else None
